@@ -121,6 +121,8 @@ func (p *pkgInfo) evalInt(e ast.Expr, iota int) (int64, bool) {
 				return 1000000, true
 			case "poc.PoCSlot":
 				return 3, true
+			case "poc.MiB":
+				return 1 << 20, true
 			}
 		}
 	case *ast.UnaryExpr:
